@@ -25,8 +25,24 @@ ITEMS = [
     ("'10'", ['str', '10'], None, '10'), ("'9'", ['str', '9'], None, '9'), ("''", ['str', ''], None, ''),
     ("'A'", ['str', 'A'], None, 'A'), ("'ab'", ['str', 'ab'], None, 'ab'), ("'AB'", ['str', 'AB'], None, 'AB'),
     ("'aB'", ['str', 'aB'], None, 'aB'), ("'Ab'", ['str', 'Ab'], None, 'Ab'),
+    # appended later (indexes of the items above are kept for the replay files). The fifth field is the position
+    # among the numeric values: fn:sort puts NaN before every other value, equal to itself
+    ("xs:double('NaN')", ['float', 'NaN'], None, 'NaN', (-2, 0)), ("xs:float('NaN')", ['Float', 'NaN'], None, 'NaN', (-2, 0)),
+    ("xs:double('-INF')", ['float', '-inf'], None, '-INF', (-1, 0)), ("xs:double('INF')", ['float', 'inf'], None, 'INF', (1, 0)),
+    ("xs:float('1.5')", ['Float', '1.5'], None, '1.5', (0, Fraction(3, 2))),
+    # xs:untypedAtomic and xs:anyURI sort as strings
+    ("xs:untypedAtomic('b')", ['UntypedAtomic', 'b'], None, 'b'), ("xs:untypedAtomic('A')", ['UntypedAtomic', 'A'], None, 'A'),
+    ("xs:untypedAtomic('aa')", ['UntypedAtomic', 'aa'], None, 'aa'), ("xs:anyURI('ab')", ['AnyURI', 'ab'], None, 'ab'),
+    ("xs:anyURI('B')", ['AnyURI', 'B'], None, 'B'),
 ]
-STRINGS = [i for i, it in enumerate(ITEMS) if it[1][0] == 'str']
+STRINGS = [i for i, it in enumerate(ITEMS) if it[1][0] in ('str', 'UntypedAtomic', 'AnyURI')]
+NUMERIC_X = [i for i, it in enumerate(ITEMS) if it[2] is not None or len(it) > 4]
+
+
+def numkey(it):
+    return it[4] if len(it) > 4 else (0, it[2])
+
+
 CI = 'http://www.w3.org/2005/xpath-functions/collation/html-ascii-case-insensitive'
 NUMERIC = [i for i, it in enumerate(ITEMS) if it[2] is not None]
 INTS = [i for i, it in enumerate(ITEMS) if it[1][0] == 'int']
@@ -43,6 +59,11 @@ KEYS = {
     'is-int': ("function($x) { $x instance of xs:integer }", lambda it: it[1][0] == 'int', ALL),
     'const': ("function($x) { 0 }", lambda it: 0, ALL),
     'none-num': (None, lambda it: it[2], NUMERIC),
+    'none-num-x': (None, numkey, NUMERIC_X),
+    'identity-num-x': ("function($x) { $x }", numkey, NUMERIC_X),
+    'pair-num-x': ("function($x) { (1, $x) }", lambda it: (1, numkey(it)), NUMERIC_X),
+    'none-str': (None, lambda it: it[3], STRINGS),
+    'identity-str': ("function($x) { $x }", lambda it: it[3], STRINGS),
     'first-char': ("function($x) { substring(string($x), 1, 1) }", lambda it: it[3][:1], ALL),
     # a collation under which different strings are equal: ties must keep their input order
     'ci-collation': (None, lambda it: it[3].lower(), STRINGS, CI),
@@ -156,7 +177,7 @@ def _lookup(canons):
                 out.append(it)
                 break
         else:
-            out.append((None, c, Fraction(-999), '?'))
+            out.append((None, c, Fraction(-999), '?', (-9, 0)))
     return out
 
 
